@@ -885,7 +885,7 @@ class Tr:
 # id: Lean name; cname: C++ function name (as called); src/flt/suffix: where its body is
 FUNCS = [
     dict(id='SetSeed', cname='SetSeed', src='src/fault/util.cpp', flt='yaclib::detail::SetSeed', suffix='fault/util.cpp',
-         params=[('new_seed', 'Nat')], reads=[], writes=['sSeed', 'eng'], ret=None, presets=['sSeed', 'eng']),
+         params=[('new_seed', 'Nat')], reads=[], writes=['sSeed', 'sRandCount', 'eng'], ret=None),
     dict(id='GetSeed', cname='GetSeed', src='src/fault/util.cpp', flt='yaclib::detail::GetSeed', suffix='fault/util.cpp',
          params=[], reads=['sSeed'], writes=[], ret='Nat'),
     dict(id='GetRandNumber', cname='GetRandNumber', src='src/fault/util.cpp', flt='yaclib::detail::GetRandNumber',
@@ -942,9 +942,6 @@ FUNCS = [
          flt='yaclib::fault::Scheduler::SleepPreemptive', suffix='fiber/scheduler.cpp', params=[('ns', 'Nat')],
          reads=['sRandCount', 'eng', 'sSleepTime'], writes=['sRandCount', 'eng'], ret=None, part=('stmts', 0, 1),
          out_params=['ns']),
-    dict(id='Scheduler.SleepPreemptive.cleanup', cname=None, fname='SleepPreemptive', src='src/fault/fiber/scheduler.cpp',
-         flt='yaclib::fault::Scheduler::SleepPreemptive', suffix='fiber/scheduler.cpp', params=[('ns', 'Nat')],
-         reads=['_time'], writes=[], ret='Bool', part=('cond', 0)),
 ]
 
 # file statics / member defaults read as constants: (Lean name, file, filter, kind, variable, expected type tag)
